@@ -342,6 +342,11 @@ pub enum Latitude {
     /// arithmetic operator (⇒ all x, this model's default); many tools treat
     /// it as the identity.
     UnaryPlusXz,
+    /// an unbased unsized literal (`'0 '1 'x 'z`) in a context-determined
+    /// position: 5.7.1 calls it unsigned only for the self-determined case.
+    /// This model treats it as unsigned everywhere (its siblings are then
+    /// zero-extended); the alternative lets it take the sign of its siblings.
+    UnsizedLiteralSign,
 }
 
 /// One consistent choice at every [`Latitude`] point that has a finite set of
@@ -357,6 +362,8 @@ pub struct Dialect {
     pub unary_plus_passthrough: bool,
     /// an x/z sign bit extends / arithmetic-shifts in as x (not as itself).
     pub xz_sign_fill_x: bool,
+    /// an unbased unsized literal does not make its context unsigned.
+    pub unsized_literal_signed: bool,
 }
 
 impl Dialect {
@@ -365,11 +372,14 @@ impl Dialect {
         for a in [false, true] {
             for b in [false, true] {
                 for c in [false, true] {
-                    v.push(Dialect {
-                        pow_sign_from_both: a,
-                        unary_plus_passthrough: b,
-                        xz_sign_fill_x: c,
-                    });
+                    for e in [false, true] {
+                        v.push(Dialect {
+                            pow_sign_from_both: a,
+                            unary_plus_passthrough: b,
+                            xz_sign_fill_x: c,
+                            unsized_literal_signed: e,
+                        });
+                    }
                 }
             }
         }
@@ -1002,7 +1012,10 @@ pub fn size_cast(x: &Bv, n: usize) -> Bv {
     x.resize(n)
 }
 
-fn eval_outer(e: &expr::Expr, ctx_width: Option<usize>, ctx_signed: Option<bool>, d: &Dialect) -> Eval {
+/// Evaluate an expression tree in an outer context: `ctx_width` bits
+/// (`None` = self-determined) and `ctx_signed` (`None` = nothing else in the
+/// context, `Some(false)` = an unsigned sibling).
+pub fn eval_in_context(e: &expr::Expr, ctx_width: Option<usize>, ctx_signed: Option<bool>, d: &Dialect) -> Eval {
     let w = e.width().max(ctx_width.unwrap_or(0));
     let s = e.signed_d(d) && ctx_signed.unwrap_or(true);
     let mut n = expr::Notes::default();
@@ -1023,7 +1036,7 @@ pub fn unary(op: UnOp, x: &Bv, ctx_width: Option<usize>, ctx_signed: Option<bool
     unary_d(op, x, ctx_width, ctx_signed, &Dialect::default())
 }
 pub fn unary_d(op: UnOp, x: &Bv, ctx_width: Option<usize>, ctx_signed: Option<bool>, d: &Dialect) -> Eval {
-    eval_outer(&expr::Expr::un(op, expr::Expr::Lit(x.clone())), ctx_width, ctx_signed, d)
+    eval_in_context(&expr::Expr::un(op, expr::Expr::Lit(x.clone())), ctx_width, ctx_signed, d)
 }
 
 /// `x op y` for two simple operands; context as for [`unary`].
@@ -1038,7 +1051,7 @@ pub fn binary_d(
     ctx_signed: Option<bool>,
     d: &Dialect,
 ) -> Eval {
-    eval_outer(
+    eval_in_context(
         &expr::Expr::bin(op, expr::Expr::Lit(x.clone()), expr::Expr::Lit(y.clone())),
         ctx_width,
         ctx_signed,
@@ -1058,7 +1071,7 @@ pub fn cond_d(
     ctx_signed: Option<bool>,
     d: &Dialect,
 ) -> Eval {
-    eval_outer(
+    eval_in_context(
         &expr::Expr::cond(
             expr::Expr::Lit(c.clone()),
             expr::Expr::Lit(a.clone()),
